@@ -92,8 +92,12 @@ def _valid_property(sim):
     if sim.coin('const', 0.45):
         c = sim.pick('constname', CONSTS)
         c2 = sim.pick('constname2', CONSTS)
-        where = sim.choose('constpos', 6)
-        if where == 0:
+        where = sim.choose('constpos', 8)
+        if where >= 6:
+            big = sim.pick('bignum', ('123456789012345678901234567890', '1e400', '2.5e-320', '0.0', '1e22', '18446744073709551616',
+                                      '9' * 320, '1' + '0' * 309, '1' + '0' * 308, '7' * 5000))
+            extra = ('bin', sim.pick('bop', ('<', '=', '!=')), ('field', 'x'), ('un', '-', ('raw', big)) if where == 7 else ('raw', big))
+        elif where == 0:
             extra = ('bin', 'in', ('field', 'x'), ('range', ('un', '-', ('const', c)), ('const', c2), sim.coin('cx', 0.3), False))
         elif where == 1:
             extra = ('bin', 'in', ('field', 'x'), ('set', [('const', c), ('lit', 'num', '1'), ('un', '-', ('const', c2))]))
@@ -146,6 +150,10 @@ def gen_scenario(seed, cfg):
         text = _valid_property(sim)
     else:
         text = '\n'.join(_valid_property(sim) for _ in range(sim.weighted('nprops', [(3, 1), (3, 2), (2, 3), (1, 6)])))
+        if '\n' in text and sim.coin('dupprop', 0.15):
+            # the same property twice, or a near-duplicate of it
+            first = _valid_property(sim)
+            text = first + '\n' + (first if sim.coin('exactdup', 0.4) else gen.sibling_text(sim, first.split('\n')[-1]))
         if sim.coin('crlf', 0.1):
             text = text.replace('\n', '\r\n')
     content_kind = 'valid'
